@@ -98,8 +98,10 @@ Run(i, k0, g0, d0, lim, used, h) ==
       LET r == Cost(g) - g0 IN
       IF h.cur = i
       THEN \* observed: the run stopped inside this group => it cannot have fitted; progress is monotone
-           Susp(i, 0, h.gcons, d0, r > lim - used /\ h.gcons >= g0 /\ h.gcons < Cost(g))
-      ELSE IF r > lim - used THEN Susp(i, 0, g0, d0, FALSE)     \* observed completion of a group that did not fit
+           \* (gcons = cost is possible: everything is charged but the verdict - e.g. the dead-lock error of the
+           \* next scheduling decision - is produced by the following call)
+           Susp(i, 0, h.gcons, d0, r > lim - used /\ h.gcons >= g0 /\ h.gcons <= Cost(g))
+      ELSE IF r > lim - used THEN Susp(i, 0, g0, d0, TRUE)      \* does not fit: stops somewhere inside (not observed)
       ELSE IF g.exit # 0 THEN End(Failed(g.exit), d0, TRUE)
       ELSE Run(i + 1, 0, 0, d0 + Cost(g), lim, used + r, h)
     ELSE
